@@ -36,6 +36,7 @@ def check(ctx, report):
     report.rule('C10.R4', 'unknown items are appended or rejected, never dropped; invalid-type wrapper keeps the code')
     report.rule('C10.R5', 'enum typed integer fields: parse width == compose width')
     report.rule('C10.R6', 'GREASE classification equals RFC 8701 (tables and decision)')
+    strict_decoding(ctx, report)
     grease_classification(ctx, report, 'C10.R6')
     # ---- R1
     n_enum = 0
@@ -400,3 +401,45 @@ def tabulate_decision(cls, test, width, want, Evaluator, Unsupported, model=None
     except Unsupported as e:
         return str(e)
     return wrong
+
+
+# ---- R7: wire text is decoded strictly ------------------------------------------------------------------------------------
+
+def strict_decoding(ctx, report):
+    """bytes from the wire that become a name looked up in a table (or a value kept in the object) are decoded with the strict
+    error handler: 'ignore' / 'replace' silently map an unregistered byte sequence onto a registered name (b'h2\xff' -> h2).
+    Lenient decoding is accepted only inside an exception handler (building the message of the error being reported)."""
+    import ast
+    model = ctx.model
+    report.rule('C10.R7', 'no lenient (ignore / replace) decoding of wire bytes outside error reporting')
+    n_calls = 0
+    for f in model.functions():
+        if f.module.external:
+            continue
+        parents = {}
+        for n in ast.walk(f.node):
+            for ch in ast.iter_child_nodes(n):
+                parents[id(ch)] = n
+        for n in ast.walk(f.node):
+            if not isinstance(n, ast.Call):
+                continue
+            fn = ast.unparse(n.func)
+            if not (fn.endswith(('ensure_text', 'ensure_str', '.decode')) or fn in ('str', 'six.text_type')):
+                continue
+            n_calls += 1
+            lenient = [a for a in list(n.args) + [k.value for k in n.keywords]
+                       if isinstance(a, ast.Constant) and a.value in ('ignore', 'replace', 'backslashreplace', 'surrogateescape', 'xmlcharrefreplace')]
+            if not lenient:
+                continue
+            report.count('C10.R7')
+            p = n
+            in_handler = False
+            while id(p) in parents:
+                p = parents[id(p)]
+                if isinstance(p, ast.ExceptHandler):
+                    in_handler = True
+            if not in_handler:
+                report.add('C10.R7', '%s@decode[%s]' % (f.construct, lenient[0].value),
+                           '%s decodes wire bytes with the %r error handler: undecodable bytes are dropped / replaced before the value is looked up or '
+                           'stored, so an unregistered code is mapped onto a registered one' % (ast.unparse(n)[:70], lenient[0].value))
+    report.count('C10.R7', n_calls, nontrivial=0)
